@@ -521,12 +521,11 @@ instance (i : Interval) (x : Nat) : Decidable (inIv i x) := by unfold inIv; exac
 /-- the set a list of intervals denotes -/
 def Mem (l : List Interval) (x : Nat) : Prop := ∃ i ∈ l, inIv i x
 
-/-- the normal form the property speaks about: every interval valid, strictly ascending,
-    disjoint and NON-ADJACENT (`prev.hi + 1 < next.lo`) -/
-def WF : List Interval → Prop
-  | [] => True
-  | [a] => a.lo ≤ a.hi
-  | a :: b :: rest => a.lo ≤ a.hi ∧ a.hi + 1 < b.lo ∧ WF (b :: rest)
+/-- the normal form the property speaks about: every interval valid (`lo ≤ hi`), and every earlier
+    interval ends MORE THAN ONE below every later one — i.e. strictly ascending, disjoint and
+    NON-ADJACENT (`prev.hi + 1 < next.lo`) -/
+def WF (l : List Interval) : Prop :=
+  (∀ b ∈ l, b.lo ≤ b.hi) ∧ l.Pairwise (fun a b => a.hi + 1 < b.lo)
 
 /-- executable twin of `WF` -/
 def wfB : List Interval → Bool
